@@ -90,6 +90,49 @@ def header_of(m):
     return out
 
 
+STEP_BUDGET = {'n': 0, 'max': 2000000, 'installed': False}
+
+
+def install_step_budget(maximum=None):
+    """Deterministic bound on the work of one run (or one operation of a history): call-through
+    counters around the two functions every replication iteration passes through - the interpreting
+    coder's `process_members` and the compiled executor's `process_statements`. Damaged input can make
+    the library loop for minutes (a garbage replication count over an empty member list: 90 million
+    iterations seen); no property speaks about time, and a wall-clock kill would not replay."""
+    from sim.core import StepBudgetExceeded
+    B = STEP_BUDGET
+    if maximum is not None:
+        B['max'] = maximum
+    B['n'] = 0
+    if B['installed']:
+        return
+    B['installed'] = True
+    import pybufrkit.coder as coder
+    import pybufrkit.templatecompiler as tc
+    if hasattr(coder.Coder, 'process_members'):
+        inner = coder.Coder.process_members
+
+        def process_members(self, state, bit_operator, members):
+            B['n'] += 1
+            if B['n'] > B['max']:
+                raise StepBudgetExceeded()
+            return inner(self, state, bit_operator, members)
+        coder.Coder.process_members = process_members
+    if hasattr(tc, 'process_statements'):
+        inner_s = tc.process_statements
+
+        def process_statements(c, state, bit_operator, statements):
+            B['n'] += 1
+            if B['n'] > B['max']:
+                raise StepBudgetExceeded()
+            return inner_s(c, state, bit_operator, statements)
+        tc.process_statements = process_statements
+
+
+def reset_step_budget():
+    STEP_BUDGET['n'] = 0
+
+
 def quiet_std():
     """capture python-level stdout/stderr of the library (it prints skip notices to stderr)"""
     so, se = sys.stdout, sys.stderr
